@@ -132,9 +132,12 @@ def gen_skel(r, depth, budget):
 def real_facts(jinja2, src):
     env = jinja2.Environment(extensions=["jinja2.ext.loopcontrols"])
     try:
-        code = env.compile(src, raw=True)
+        with lib.cpu_guard(5.0):
+            code = env.compile(src, raw=True)
     except jinja2.TemplateSyntaxError:
         return "E", None
+    except lib.Hang:
+        return "X:Hang:loading did not finish within 5 s of CPU time", None
     except Exception as e:  # noqa
         return "X:" + type(e).__name__ + ":" + str(e)[:80], None
     try:
@@ -274,6 +277,19 @@ def sig_for(src, outcome=""):
 
 
 # ------------------------------------------------------------------ oracle on the real engine
+def _fin(v):
+    return v
+
+
+def _fin_ctx(ctx_, v):
+    return v
+
+
+def _mk_fin_ctx():
+    import jinja2
+    return jinja2.pass_context(_fin_ctx)
+
+
 CONFIGS = {
     "default": {},
     "erb": dict(block_start_string="<%", block_end_string="%>", variable_start_string="<%=", variable_end_string="%>",
@@ -292,6 +308,9 @@ CONFIGS = {
                    comment_start_string="(?", comment_end_string="?)", line_statement_prefix="\\", line_comment_prefix="^^"),
     "prefix": dict(block_start_string="<", block_end_string=">", variable_start_string="<<", variable_end_string=">>",
                    comment_start_string="<<<", comment_end_string=">>>", trim_blocks=True),
+    # environment hooks that change what the code generator emits around every output
+    "finalize": dict(finalize=_fin, autoescape=True),
+    "finalize_ctx": dict(finalize="_mk_fin_ctx", optimized=False, extensions=["jinja2.ext.do", "jinja2.ext.loopcontrols"]),
     # templates loaded under a name (as every loader does): the name is embedded in the generated module
     "named": {"_named": True},
 }
@@ -309,6 +328,8 @@ FRAGS = {
     "ext_async_trim": ["{%", "%}", "trans", "endtrans", "pluralize", "a", " "],
     "regexy": ["(*", "*)", "[[", "]]", "(?", "?)", "\\", "^^", "\n", "a", " ", "if a", "-"],
     "prefix": ["<", ">", "<<", ">>", "<<<", ">>>", "-", "\n", "a", " ", "raw", "endraw"],
+    "finalize": ["{%", "%}", "{{", "}}", "autoescape a", "autoescape true", "endautoescape", "raw", "endraw", "x", " ", "<"],
+    "finalize_ctx": ["{%", "%}", "{{", "}}", "autoescape a", "endautoescape", "set x", "endset", "filter e", "endfilter", "x", "<"],
     "named": ["{{", "}}", "{%", "%}", " 1 if a ", "from 'x' import a", "include ", "extends ", "a", " ", "(", "'x'"],
 }
 
@@ -322,6 +343,8 @@ def get_env(cfgname):
         kw = dict(CONFIGS[cfgname])
         cls = jinja2.sandbox.SandboxedEnvironment if kw.pop("_class", None) else jinja2.Environment
         kw.pop("_named", None)
+        if kw.get("finalize") == "_mk_fin_ctx":
+            kw["finalize"] = _mk_fin_ctx()
         _ENVS[cfgname] = cls(**kw)
     return _ENVS[cfgname]
 
@@ -514,7 +537,7 @@ def oracle(ctx):
     for i in range(ctx.size(1500, 30000)):
         g = TGen(ctx.rng, depth=3)
         ts, main = g.template_set()
-        cfg = ctx.rng.choice(["default", "trim", "async", "ext", "sandbox"])
+        cfg = ctx.rng.choice(["default", "trim", "async", "ext", "sandbox", "finalize", "finalize_ctx"])
         for src in ts.values():
             work.append((cfg, src))
             m = src
@@ -682,9 +705,45 @@ def oracle(ctx):
                 work.append((cfgname, src))
                 n_pos += 1
     ctx.count("oracle_name_in_every_expression_position", n_pos)
+    # (xi) every nesting (depth <= 3) and every sibling pair of the block constructs around text and a print, under
+    # every environment hook configuration: what the code generator wraps around outputs must stay balanced
+    CONS = [("{% autoescape a %}", "{% endautoescape %}"), ("{% autoescape true %}", "{% endautoescape %}"), ("{% raw %}", "{% endraw %}"),
+            ("{% if a %}", "{% else %}e{% endif %}"), ("{% for i in y %}", "{% else %}e{% endfor %}"), ("{% for i in y recursive %}", "{% endfor %}"),
+            ("{% set v %}", "{% endset %}{{ v }}"), ("{% set v | trim %}", "{% endset %}"), ("{% filter upper %}", "{% endfilter %}"),
+            ("{% macro m() %}", "{% endmacro %}{{ m() }}"), ("{% call m() %}", "{% endcall %}"), ("{% block b %}", "{% endblock %}"),
+            ("{% block c scoped %}", "{% endblock %}"), ("{% with q = 1 %}", "{% endwith %}"), ("{% trans %}", "{% endtrans %}"),
+            ("{% for i in y if a %}", "{% endfor %}")]
+    def _nest(cs, inner):
+        src = inner
+        for o, c in reversed(cs):
+            src = "p<" + o + src + c + ">s"
+        return src
+    nests = []
+    for depth in (1, 2, 3):
+        for cs in itertools.product(CONS, repeat=depth):
+            if sum(1 for o, _ in cs if o.startswith("{% block b")) > 1 or sum(1 for o, _ in cs if o.startswith("{% block c")) > 1:
+                continue
+            nests.append(_nest(cs, "t{{ x }}<"))
+    for p_ in CONS:
+        for a_ in CONS:
+            for b_ in CONS:
+                if len({p_[0], a_[0], b_[0]} & {"{% block b %}", "{% block c scoped %}"}) and (p_ == a_ or a_ == b_ or p_ == b_):
+                    continue
+                nests.append(_nest([p_], _nest([a_], "u") + "{{ x }}" + _nest([b_], "w<")))
+    n_nest = 0
+    hook_cfgs = ("finalize", "finalize_ctx", "ext", "async", "sandbox", "ext_async_trim")
+    for i, src in enumerate(nests):
+        for j, cfgname in enumerate(hook_cfgs):
+            if ctx.tier == "quick" and (i + j) % 3:
+                continue
+            if "trans" in src and cfgname not in ("ext", "ext_async_trim"):
+                continue
+            work.append((cfgname, src))
+            n_nest += 1
+    ctx.count("oracle_nested_block_constructs", n_nest)
     work += PROBES
     ctx.count("oracle_exhaustive", n_exh)
-    ctx.count("oracle_generated_and_mutated", len(work) - n_exh - len(PROBES) - n_uni - n_res - n_const - n_pos)  # (v) counted separately below
+    ctx.count("oracle_generated_and_mutated", len(work) - n_exh - len(PROBES) - n_uni - n_res - n_const - n_pos - n_nest)  # (v) counted separately below
     ctx.count("oracle_probes", len(PROBES))
     chunks = [work[i:i + 400] for i in range(0, len(work), 400)]
     t0 = time.time()
